@@ -96,6 +96,7 @@ func main() {
 	maxPaths := flag.Int("maxpaths", 200000, "per-harness path budget")
 	solverTO := flag.Int("solver-timeout", 20000, "per-query solver timeout (ms)")
 	dump := flag.String("dump", "", "dump SSA of function (pkgpath.Func) and exit")
+	onlyShard := flag.Int("shard", -1, "run only this shard of sharded harnesses")
 	cross := flag.Bool("cross", false, "cross-check final obligations on z3-new and cvc5")
 	flag.Parse()
 
@@ -233,6 +234,9 @@ func main() {
 			continue
 		}
 		for s := 0; s < n; s++ {
+			if *onlyShard >= 0 && s != *onlyShard {
+				continue
+			}
 			jobsL = append(jobsL, job{h, s, n})
 		}
 	}
@@ -315,17 +319,12 @@ func main() {
 			status := "ok"
 			if len(hr.Violations) > 0 {
 				status = fmt.Sprintf("%d VIOLATING PATH(S)", len(hr.Violations))
-			} else if len(hr.Inconclusive) > 0 || (len(hr.Unreached) > 0 && hr.NShard <= 1) {
+			} else if len(hr.Inconclusive) > 0 {
 				status = "INCONCLUSIVE"
 			}
 			fmt.Printf("  %-46s paths=%-6d obl=%-6d disch=%-6d (trivial %d) queries=%-6d solver=%.1fs wall=%.1fs  %s\n", hr.Name, hr.Paths, hr.Obligations, hr.Discharged, hr.Trivial, hr.Queries, hr.SolverTime, hr.Wall, status)
 			for _, m := range hr.Inconclusive {
 				fmt.Printf("      inconclusive: %s\n", m)
-			}
-			if hr.NShard <= 1 {
-				for _, m := range hr.Unreached {
-					fmt.Printf("      vacuity: never reached %s\n", m)
-				}
 			}
 			for k, v := range hr.Violations {
 				if k >= 3 {
@@ -338,34 +337,44 @@ func main() {
 		}(hi, jb.fn, jb.shard, jb.nshard)
 	}
 	wg.Wait()
-	// vacuity across shards: a site counts as unreached only if no shard reached it
-	byBase := map[string][]*HarnessResult{}
+	// vacuity is judged over the whole run: an Assert/Reach site (harness
+	// helpers are shared between harnesses and shards) is unreached only if no
+	// harness reached it on a feasible path.
+	reachedSomewhere := map[string]bool{}
 	for _, r := range results {
-		if r.NShard > 1 {
-			byBase[r.Base] = append(byBase[r.Base], r)
+		for s, n := range r.AssertSites {
+			if n > 0 {
+				reachedSomewhere["Assert "+s] = true
+			}
+		}
+		for s, n := range r.ReachTags {
+			if n > 0 {
+				reachedSomewhere["Reach "+s] = true
+			}
 		}
 	}
-	for base, grp := range byBase {
-		cnt := map[string]int{}
-		defer func(base string, grp []*HarnessResult) {
-			for _, u := range grp[0].Unreached {
-				fmt.Printf("  %s: vacuity: no shard reached %s\n", base, u)
-			}
-		}(base, grp)
-		for _, r := range grp {
-			for _, u := range r.Unreached {
-				cnt[u]++
-			}
-		}
-		for _, r := range grp {
-			var keep []string
-			for _, u := range r.Unreached {
-				if cnt[u] == len(grp) {
-					keep = append(keep, u)
+	globalUnreached := map[string]bool{}
+	for _, r := range results {
+		var keep []string
+		for _, u := range r.Unreached {
+			key := u
+			if strings.HasPrefix(u, "Reach ") {
+				if i := strings.Index(u, " at "); i > 0 {
+					key = u[:i]
 				}
 			}
-			r.Unreached = keep
+			if !reachedSomewhere[key] {
+				globalUnreached[u] = true
+			}
 		}
+		r.Unreached = keep
+	}
+	if len(globalUnreached) > 0 && len(results) > 0 {
+		for u := range globalUnreached {
+			results[0].Unreached = append(results[0].Unreached, u)
+			fmt.Printf("  vacuity: no harness reached %s\n", u)
+		}
+		sort.Strings(results[0].Unreached)
 	}
 
 	if *out != "" {
@@ -395,18 +404,38 @@ func main() {
 // (functions reachable from h by static calls inside the same package and
 // defined in zz_ files) that no feasible path reached.
 func shardCount(h *ssa.Function) int {
-	for _, b := range h.Blocks {
-		for _, in := range b.Instrs {
-			if c, ok := in.(*ssa.Call); ok {
-				if callee := c.Call.StaticCallee(); callee != nil && fnName(callee) == zz+"Shard" {
+	seen := map[*ssa.Function]bool{}
+	var visit func(fn *ssa.Function, d int) int
+	visit = func(fn *ssa.Function, d int) int {
+		if fn == nil || seen[fn] || d > 4 {
+			return 0
+		}
+		seen[fn] = true
+		for _, b := range fn.Blocks {
+			for _, in := range b.Instrs {
+				c, ok := in.(*ssa.Call)
+				if !ok {
+					continue
+				}
+				callee := c.Call.StaticCallee()
+				if callee == nil {
+					continue
+				}
+				if fnName(callee) == zz+"Shard" {
 					if k, ok := c.Call.Args[0].(*ssa.Const); ok {
 						return int(k.Int64())
 					}
 				}
+				if callee.Pkg == h.Pkg && strings.HasPrefix(callee.Name(), "zz") {
+					if n := visit(callee, d+1); n > 0 {
+						return n
+					}
+				}
 			}
 		}
+		return 0
 	}
-	return 0
+	return visit(h, 0)
 }
 
 func unreachedSites(x *Exec, h *ssa.Function) []string {
